@@ -370,7 +370,11 @@ func judge(d *driver, o *flowOut) engine.Result {
 		return engine.Bad(rule, "bad:"+vd.what, sig(vd.what), vd.detail+" | response "+shape)
 	}
 	if c.probe == "none" {
-		return engine.OK(rule, "ok "+shape)
+		r := engine.OK(rule, "ok "+shape)
+		if len(e.filled) > 0 {
+			r.Detail = fmt.Sprintf("custom claims standing in for registered claims the tokens do not carry: %v", e.filled)
+		}
+		return r
 	}
 	return probe(d, o, ks, rule, at, idt, atKind)
 }
